@@ -27,6 +27,7 @@ import (
 	meshconfig "istio.io/api/mesh/v1alpha1"
 	"istio.io/istio/pilot/pkg/features"
 	"istio.io/istio/pilot/pkg/model"
+	"istio.io/istio/pilot/pkg/xds"
 	v3 "istio.io/istio/pilot/pkg/xds/v3"
 	xdsfake "istio.io/istio/pilot/test/xds"
 	"istio.io/istio/pkg/config"
@@ -716,3 +717,282 @@ func sortedKeys(m map[string]bool) []string {
 
 var _ = gvk.VirtualService
 var _ = strconv.Itoa
+
+// ---------------------------------------------------------------- sequences of incremental pushes (mode dseq)
+
+// client is the state a delta-xDS client holds for one proxy: what it was sent, merged step by step.
+type client struct {
+	px *model.Proxy
+	sn *snapshot
+}
+
+// applyStep changes the config store of the running discovery server (create / update = upsert, delete) and waits
+// until the push context built for the change is committed.
+func (w *world) applyStep(verb string, c cfgDesc) (key model.ConfigKey, res string) {
+	cc, err := c.toConfig()
+	if err != nil {
+		return key, "undecodable"
+	}
+	key = model.ConfigKey{Kind: gvk.MustToKind(cc.GroupVersionKind), Name: cc.Name, Namespace: cc.Namespace}
+	store := w.s.Store()
+	before := w.s.Discovery.InboundUpdates.Load()
+	old := w.s.PushContext()
+	existing := store.Get(cc.GroupVersionKind, cc.Name, cc.Namespace)
+	switch {
+	case verb == "delete" && existing == nil:
+		return key, "noop"
+	case verb == "delete":
+		if err := store.Delete(cc.GroupVersionKind, cc.Name, cc.Namespace, nil); err != nil {
+			return key, "store-error"
+		}
+		res = "deleted"
+	case existing != nil:
+		cc.ResourceVersion = existing.ResourceVersion
+		if _, err := store.Update(cc); err != nil {
+			return key, "store-error"
+		}
+		res = "updated"
+	default:
+		if _, err := store.Create(cc); err != nil {
+			return key, "store-error"
+		}
+		res = "created"
+	}
+	for end := time.Now().Add(3 * time.Second); time.Now().Before(end) && w.s.Discovery.InboundUpdates.Load() == before; {
+		time.Sleep(time.Millisecond)
+	}
+	w.s.EnsureSynced(w.fl)
+	for end := time.Now().Add(3 * time.Second); time.Now().Before(end) && w.s.PushContext() == old; {
+		time.Sleep(time.Millisecond)
+	}
+	return key, res
+}
+
+func edsNames(cs []*cluster.Cluster) []string {
+	var out []string
+	seen := map[string]bool{}
+	for _, c := range cs {
+		if c.GetType() == cluster.Cluster_EDS {
+			n := c.GetEdsClusterConfig().GetServiceName()
+			if n == "" {
+				n = c.Name
+			}
+			if !seen[n] {
+				seen[n] = true
+				out = append(out, n)
+			}
+		}
+	}
+	return out
+}
+
+// stepPush does what the server does for one connection when config `key` changed (computeProxyState, ProxyNeedsPush,
+// then CDS / EDS / LDS / RDS with the client's watched names, delta generators where they exist), applies each response to
+// the client's state the way a delta-xDS client does (upsert by name, removed_resources dropped, a removed cluster /
+// listener takes its CLA / route configuration with it), then answers the client's requests for names it newly needs.
+func (w *world) stepPush(cl *client, key model.ConfigKey) string {
+	sn0 := cl.sn
+	sn := &snapshot{static: sn0.static, listeners: sn0.listeners, routes: sn0.routes, clusters: sn0.clusters, endpoints: sn0.endpoints,
+		reqRds: sn0.reqRds, reqEds: sn0.reqEds}
+	px := cl.px
+	fail := guarded("generate-step", 20*time.Second, func() {
+		push := w.s.PushContext()
+		req := &model.PushRequest{Push: push, ConfigsUpdated: sets.New(key), Reason: model.NewReasonStats(model.ConfigUpdate), Start: time.Now()}
+		xds.VerifC14ComputeProxyState(w.s.Discovery, px, req)
+		if r2, ok := w.s.Discovery.ProxyNeedsPush(px, req); !ok {
+			return
+		} else if r2 != nil {
+			req = r2
+		}
+		asked := &model.PushRequest{Push: push, Forced: true, Reason: model.NewReasonStats(model.ProxyRequest), Start: time.Now()}
+		run := func(typ string, names []string, r *model.PushRequest) (res model.Resources, removed []string, sent bool) {
+			wr := &model.WatchedResource{TypeUrl: typ, ResourceNames: sets.New(names...)}
+			var (
+				del   model.DeletedResources
+				logd  model.XdsLogDetails
+				delta bool
+				err   error
+			)
+			switch g := w.s.Discovery.Generators[typ].(type) {
+			case model.XdsDeltaResourceGenerator:
+				res, del, logd, delta, err = g.GenerateDeltas(px, r, wr)
+			default:
+				res, logd, err = g.Generate(px, wr, r)
+			}
+			if err != nil {
+				panic(typ + " error: " + err.Error())
+			}
+			if res == nil && del == nil {
+				return nil, nil, false
+			}
+			if delta {
+				removed = del
+			} else if !logd.Incremental {
+				gone := sets.New(names...)
+				for _, x := range res {
+					gone.Delete(x.Name)
+				}
+				removed = sets.SortedList(gone)
+			}
+			return res, removed, true
+		}
+		// CDS
+		var names []string
+		for _, c := range sn.clusters {
+			names = append(names, c.Name)
+		}
+		if res, removed, sent := run(v3.ClusterType, names, req); sent {
+			gone := sets.New(removed...)
+			var got []*cluster.Cluster
+			repl := map[string]bool{}
+			for _, r := range res {
+				c := &cluster.Cluster{}
+				if err := r.Resource.UnmarshalTo(c); err != nil {
+					sn.undecodable = append(sn.undecodable, "Cluster:"+r.Name)
+					continue
+				}
+				got = append(got, c)
+				repl[c.Name] = true
+			}
+			var merged []*cluster.Cluster
+			for _, c := range sn.clusters {
+				if !gone.Contains(c.Name) && !repl[c.Name] {
+					merged = append(merged, c)
+				}
+			}
+			sn.clusters = append(merged, got...) // a name sent twice in one response stays twice
+		}
+		// EDS: the push for the names watched so far, then the request for the names the new clusters need
+		applyEds := func(res model.Resources, removed []string) {
+			gone := sets.New(removed...)
+			upd := map[string]bool{}
+			var got []*endpoint.ClusterLoadAssignment
+			for _, r := range res {
+				c := &endpoint.ClusterLoadAssignment{}
+				if err := r.Resource.UnmarshalTo(c); err != nil {
+					sn.undecodable = append(sn.undecodable, "ClusterLoadAssignment:"+r.Name)
+					continue
+				}
+				got = append(got, c)
+				upd[c.ClusterName] = true
+			}
+			var merged []*endpoint.ClusterLoadAssignment
+			for _, e := range sn.endpoints {
+				if !gone.Contains(e.ClusterName) && !upd[e.ClusterName] {
+					merged = append(merged, e)
+				}
+			}
+			sn.endpoints = append(merged, got...)
+		}
+		if res, removed, sent := run(v3.EndpointType, sn.reqEds, req); sent {
+			applyEds(res, removed)
+		}
+		need := edsNames(sn.clusters)
+		was := sets.New(sn.reqEds...)
+		var fresh []string
+		for _, n := range need {
+			if !was.Contains(n) {
+				fresh = append(fresh, n)
+			}
+		}
+		if len(fresh) > 0 {
+			if res, _, sent := run(v3.EndpointType, fresh, asked); sent {
+				applyEds(res, nil)
+			}
+		}
+		needSet := sets.New(need...)
+		var kept []*endpoint.ClusterLoadAssignment
+		for _, e := range sn.endpoints {
+			if needSet.Contains(e.ClusterName) {
+				kept = append(kept, e)
+			}
+		}
+		sn.endpoints, sn.reqEds = kept, need
+		// LDS
+		names = nil
+		for _, l := range sn.listeners {
+			names = append(names, l.Name)
+		}
+		if res, removed, sent := run(v3.ListenerType, names, req); sent {
+			gone := sets.New(removed...)
+			repl := map[string]bool{}
+			var got []*listener.Listener
+			for _, r := range res {
+				l := &listener.Listener{}
+				if err := r.Resource.UnmarshalTo(l); err != nil {
+					sn.undecodable = append(sn.undecodable, "Listener:"+r.Name)
+					continue
+				}
+				got = append(got, l)
+				repl[l.Name] = true
+			}
+			var merged []*listener.Listener
+			for _, l := range sn.listeners {
+				if !gone.Contains(l.Name) && !repl[l.Name] {
+					merged = append(merged, l)
+				}
+			}
+			sn.listeners = append(merged, got...)
+		}
+		// RDS
+		applyRds := func(res model.Resources, removed []string) {
+			gone := sets.New(removed...)
+			upd := map[string]bool{}
+			var got []*route.RouteConfiguration
+			for _, r := range res {
+				rc := &route.RouteConfiguration{}
+				if err := r.Resource.UnmarshalTo(rc); err != nil {
+					sn.undecodable = append(sn.undecodable, "RouteConfiguration:"+r.Name)
+					continue
+				}
+				got = append(got, rc)
+				upd[rc.Name] = true
+			}
+			var merged []*route.RouteConfiguration
+			for _, r := range sn.routes {
+				if !gone.Contains(r.Name) && !upd[r.Name] {
+					merged = append(merged, r)
+				}
+			}
+			sn.routes = append(merged, got...)
+		}
+		if res, removed, sent := run(v3.RouteType, sn.reqRds, req); sent {
+			applyRds(res, removed)
+		}
+		need = nil
+		seen := map[string]bool{}
+		for _, l := range sn.listeners {
+			for _, n := range listenerRdsNames(l) {
+				if !seen[n] {
+					seen[n] = true
+					need = append(need, n)
+				}
+			}
+		}
+		was = sets.New(sn.reqRds...)
+		fresh = nil
+		for _, n := range need {
+			if !was.Contains(n) {
+				fresh = append(fresh, n)
+			}
+		}
+		if len(fresh) > 0 {
+			if res, _, sent := run(v3.RouteType, fresh, asked); sent {
+				applyRds(res, nil)
+			}
+		}
+		var keptR []*route.RouteConfiguration
+		for _, r := range sn.routes {
+			if seen[r.Name] {
+				keptR = append(keptR, r)
+			}
+		}
+		sn.routes, sn.reqRds = keptR, need
+	})
+	if fail != "" {
+		return fail
+	}
+	sn.canonicalOrder()
+	cl.sn = sn
+	return ""
+}
